@@ -55,6 +55,14 @@ Definition rv_err_check : N := 1.      (* Err("Consistency check failed") *)
 Definition rv_bit (bits : list N) (idx : nat) : bool :=
   N.testbit (nth (Nat.div idx 8) bits 0%N) (N.of_nat (Nat.modulo idx 8)).
 
+(** [to_le] / [to_be] of Lib/Base.v with masks and shifts instead of divisions ([be_bytes_spec]) *)
+Fixpoint le_bytes (n : nat) (v : N) : list N :=
+  match n with O => [] | S k => N.land v 255 :: le_bytes k (N.shiftr v 8) end.
+Definition be_bytes (n : nat) (v : N) : list N := rev (le_bytes n v).
+(** [of_be] of Lib/Base.v by Horner with shifts: be_acc l 0 = of_be l ([be_acc_spec]) *)
+Fixpoint be_acc (l : list N) (acc : N) : N :=
+  match l with [] => acc | x :: r => be_acc r (N.shiftl acc 8 + x)%N end.
+
 Definition sumZ (l : list Z) : Z := fold_right Z.add 0 l.
 Definition sum_upto (n : nat) (f : nat -> Z) : Z := sumZ (map f (seq 0 n)).
 Definition b2z (b : bool) : Z := if b then 1 else 0.
@@ -90,8 +98,19 @@ Section RvoleCore.
 
   Definition rv_w : nat := (lb + rho)%nat.      (* OT_WIDTH = L_BATCH_PLUS_RHO *)
 
-  Definition reduce_be (b : list N) : Z := Z.of_N (of_be b) mod q.
-  Definition scalar_bytes (z : Z) : list N := to_be 32 (Z.to_N (z mod q)).
+  (** [v mod q] with fast paths for values within one modulus of the canonical range (the extracted
+      model runs on unary/binary [positive]s: a general division of 256-bit numbers costs ~10^5 steps).
+      Equal to [v mod q] for every v and q (Proofs/RvoleLemmas.v, [fmod_spec]). *)
+  Definition fmod (v : Z) : Z :=
+    if 0 <=? v then
+      if v <? q then v else let v1 := v - q in if v1 <? q then v1 else v mod q
+    else
+      let v1 := v + q in if 0 <=? v1 then v1 else v mod q.
+
+  (** = Z.of_N (of_be b) mod q  ([reduce_be_spec]) *)
+  Definition reduce_be (b : list N) : Z := fmod (Z.of_N (be_acc b 0)).
+  (** = to_be 32 (Z.to_N (z mod q))  ([scalar_bytes_spec]) *)
+  Definition scalar_bytes (z : Z) : list N := be_bytes 32 (Z.to_N (fmod z)).
 
   (** successive challenges of one growing transcript: every step ends in a [TChallenge] *)
   Fixpoint chal_seq (pre : list top) (steps : list (list top)) : list (list N) :=
@@ -178,7 +197,7 @@ Section RvoleCore.
   (* ------------------------------------------------------------------ receiver *)
   (** d_dot[j][k] (k < L_BATCH) and d_hat[j][k - L_BATCH]: v_x, plus a_tilde iff beta_j = 1 *)
   Definition dd (beta : nat -> bool) (vx at_ : mat) (j k : nat) : Z :=
-    (alpha vx j k + (if beta j then alpha at_ j k else 0)) mod q.
+    fmod (alpha vx j k + (if beta j then alpha at_ j k else 0)).
 
   Definition recv_item (beta : nat -> bool) (vx at_ : mat) (eta : nat -> list N) (th : list Z) : mat :=
     fun j k => scalar_bytes (dd beta vx at_ j (lb + k) + theta_dot th k (dd beta vx at_ j)
